@@ -1186,6 +1186,27 @@ class DiskRefsContainer(RefsContainer):
             # errors depending on the specific operating system
             return None
 
+    def _check_no_packed_conflict(self, refname: Ref, filename: bytes) -> None:
+        """Refuse a name that collides, as file versus directory, with a packed ref.
+
+        Between loose refs the file system refuses such names; a packed ref
+        has no file or directory that would be in the way.
+
+        Args:
+          refname: Name of the ref about to be written
+          filename: Path of its loose file, for the error
+        """
+        packed_refs = self.get_packed_refs()
+        probe_ref = Ref(os.path.dirname(refname))
+        while probe_ref:
+            if packed_refs.get(probe_ref, None) is not None:
+                raise NotADirectoryError(filename)
+            probe_ref = Ref(os.path.dirname(probe_ref))
+        prefix = refname + b"/"
+        for packed_name in packed_refs:
+            if packed_name.startswith(prefix):
+                raise IsADirectoryError(filename)
+
     def _remove_empty_dirs_at(self, filename: bytes) -> None:
         """Remove empty directories left where a ref file is about to be written.
 
@@ -1249,6 +1270,7 @@ class DiskRefsContainer(RefsContainer):
         self._check_refname(name)
         self._check_refname(other)
         filename = self.refpath(name)
+        self._check_no_packed_conflict(name, filename)
         self._remove_empty_dirs_at(filename)
         ensure_dir_exists(os.path.dirname(filename))
         f = GitFile(filename, "wb")
@@ -1305,14 +1327,7 @@ class DiskRefsContainer(RefsContainer):
             realname = name
         filename = self.refpath(realname)
 
-        # make sure none of the ancestor folders is in packed refs
-        probe_ref = Ref(os.path.dirname(realname))
-        packed_refs = self.get_packed_refs()
-        while probe_ref:
-            if packed_refs.get(probe_ref, None) is not None:
-                raise NotADirectoryError(filename)
-            probe_ref = Ref(os.path.dirname(probe_ref))
-
+        self._check_no_packed_conflict(realname, filename)
         self._remove_empty_dirs_at(filename)
         ensure_dir_exists(os.path.dirname(filename))
         with GitFile(filename, "wb") as f:
@@ -1391,6 +1406,7 @@ class DiskRefsContainer(RefsContainer):
             realname = name
         self._check_refname(realname)
         filename = self.refpath(realname)
+        self._check_no_packed_conflict(realname, filename)
         self._remove_empty_dirs_at(filename)
         ensure_dir_exists(os.path.dirname(filename))
         with GitFile(filename, "wb") as f:
